@@ -11,7 +11,7 @@ from collections.abc import Callable, Iterable, Iterator
 from math import log
 
 from wn._types import AnyPath
-from wn._core import Synset, Wordnet, _INFERRED_SYNSET
+from wn._core import Synset, Wordnet
 from wn.constants import NOUN, VERB, ADJ, ADV, ADJ_SAT
 from wn.util import synset_id_formatter
 
@@ -143,10 +143,12 @@ def compute(
                     continue
                 seen.add(ss)
 
-                # inferred synsets (gaps filled in through expand
-                # lexicons) are not synsets of the wordnet and carry no
-                # weight; the weight still reaches what lies above them
-                if ss.id != _INFERRED_SYNSET:
+                # only synsets of the wordnet with this part of speech
+                # carry a weight here: inferred synsets (gaps filled in
+                # through expand lexicons) and hypernyms with another
+                # part of speech do not, but the weight still reaches
+                # what lies above them
+                if ss.id in freq[pos]:
                     freq[pos][ss.id] += weight
 
                 if ss not in hypernym_cache:
